@@ -167,7 +167,14 @@ def _search(repo, positions=None) -> dict:
     n = 0
     for pos in (positions or POSITIONS):
         kw = [('keyword-' + k, k) for k in KEYWORD_PAYLOADS] if pos in NAME_POS else []
-        for pname, payload in [('benign', BENIGN + 'x')] + PAYLOADS + kw:
+        if pos in NAME_POS:
+            # all-lower-case names with punctuation (a case-conversion shortcut must not let the punctuation through)
+            kw += [('lower-punct', 'markerq7-item.v2'), ('lower-quote', 'markerq7"; fn injected() {} //')]
+        numeric = pos in ('facet-value', 'length-facet-value')
+        if numeric:
+            # XSD integer spellings that are not Rust literals as they stand
+            kw += [('plus-sign', '+5'), ('padded-number', ' 7 '), ('leading-zeros', '007'), ('plus-zero', '+0')]
+        for pname, payload in [('benign', '5' if numeric else BENIGN + 'x')] + PAYLOADS + kw:
             if pos in URL_POS:
                 # these positions must parse as a URL to be accepted at all; the payload sits in the path, the query or the fragment
                 # (the URL parser treats them differently: a backslash survives in query and fragment)
@@ -206,7 +213,7 @@ def _search(repo, positions=None) -> dict:
         expect = payload
         # a URL is normalised by the URL parser (percent-encoding, stripped line breaks): the literal need not spell the original text
         probs = analyse(text, expect if pos not in URL_POS else MARK, benign.get(pos), names_become_identifiers=pos in NAME_POS)
-        if pname.startswith('keyword-'):
+        if pname.startswith('keyword-') or MARK not in payload:
             probs = [x.replace('schema text became code', f'the name `{payload}` reached the output as a keyword token (or changed the structure otherwise)') for x in probs]
         if probs:
             res['anomalies'].append({'position': pos, 'payload': pname, 'value': payload, 'problems': probs[:3], 'kind': 'injection',
